@@ -345,6 +345,22 @@ func c19R4(e *Engine) {
 			if !nonNil {
 				bad = "a key is appended to the unprocessed list at " + e.ipos(c) + " without the dispatch having failed"
 			}
+			// which failures leave a key unprocessed: the branch must also depend on the class of the error
+			classified := false
+			for _, cd := range condsAt(c.Block()) {
+				if cc, ok := normCond(cd).V.(*ssa.Call); ok {
+					for _, a := range cc.Call.Args {
+						if isErr(a) || derivesFromAny(a, errs) {
+							classified = true
+						}
+					}
+				}
+			}
+			if classified {
+				e.pass("R4", "v2.Client.BatchGetItem:unprocessed-only-for-retryable-errors", e.ipos(c), "the error is classified before the key is reported unprocessed")
+			} else {
+				e.fail("R4", "v2.Client.BatchGetItem:unprocessed-only-for-retryable-errors", e.ipos(c), "every failure of the per-key GetItem – a malformed key, a key of the wrong type, an unknown table – is turned into an unprocessed key and the call succeeds, where the individual GetItem (and DynamoDB's BatchGetItem) reject the request; BatchWriteItem classifies its errors (only InternalServerError / ProvisionedThroughputExceeded stay unprocessed), BatchGetItem does not")
+			}
 		case derivesFrom(els[0], helperCall):
 			nResp++
 			if !isNil {
@@ -430,4 +446,16 @@ func c19R4(e *Engine) {
 		walk(mu.Value)
 	})
 	e.check(shared == "", "R4", "v2.Client.BatchGetItem:per-table-accumulators", e.pos(bg.Pos()), "each table's response list is allocated for that table %s", shared)
+}
+
+func derivesFromAny(v ssa.Value, srcs []*ssa.Extract) bool {
+	for _, x := range srcs {
+		if strip(v) == ssa.Value(x) {
+			return true
+		}
+		if mi, ok := v.(*ssa.MakeInterface); ok && mi.X == ssa.Value(x) {
+			return true
+		}
+	}
+	return false
 }
